@@ -444,6 +444,10 @@ bool vm_ffi_cop_start(VmState *vm, const NvmModule *module) {
         return false;
     }
 
+    /* A co-process that has exited or closed its stdin must show up as a
+     * failed write (EPIPE -> error path / relaunch), not kill the VM. */
+    signal(SIGPIPE, SIG_IGN);
+
     pid_t pid = fork();
     if (pid < 0) {
         free(blob);
@@ -460,6 +464,7 @@ bool vm_ffi_cop_start(VmState *vm, const NvmModule *module) {
         dup2(pipe_from_child[1], STDOUT_FILENO);
         close(pipe_to_child[0]);
         close(pipe_from_child[1]);
+        signal(SIGPIPE, SIG_DFL);  /* ignored dispositions survive exec */
 
         execlp("nano_cop", "nano_cop", (char *)NULL);
         execl("bin/nano_cop", "nano_cop", (char *)NULL);
